@@ -177,6 +177,14 @@ func mashDrive(args []string) error {
 		// letterCase: per-letter case patterns (a case rule that looks at which letters are lower case shows here)
 		letterCase := func(s []byte) []byte {
 			out := bytes.ToUpper(s)
+			if r.Intn(3) == 0 && len(out) > 0 { // lower case only in the last few letters (what is left over when letters are taken eight at a time)
+				for i := max(0, len(out)-1-r.Intn(7)); i < len(out); i++ {
+					if out[i] >= 'A' && out[i] <= 'Z' {
+						out[i] += 32
+					}
+				}
+				return out
+			}
 			lower := []string{"n", "acgt", "a", "nt", "acgtn", "g"}[r.Intn(6)]
 			for i, c := range out {
 				if bytes.IndexByte([]byte(lower), c+32) >= 0 {
@@ -439,6 +447,12 @@ func mashDrive(args []string) error {
 					ma := mash.Sequences(n, k, cloneSeqs(a)...)
 					mb := mash.Sequences(n, k, cloneSeqs(p.b)...)
 					full = len(ma.View()) == n && len(mb.View()) == n
+					if len(evs)%3 == 1 { // frozen (immutable, sorted) copies of the sketches are sketches, too; so is a mix
+						ma = ma.Frozen()
+						if len(evs)%2 == 0 {
+							mb = mb.Frozen()
+						}
+					}
 					d = mash.Distance(ma, mb, k)
 					dr = mash.Distance(mb, ma, k)
 				})
